@@ -189,6 +189,32 @@ theorem C07_nth (h w : Nat) (ops : List Op) (data : List α) (hlen : h * w ≤ d
   rw [iterNth_spec R hb index n, iterMutNth_spec R hb index n, hmin, h1, h2]
   exact ⟨rfl, rfl⟩
 
+/-- **C07, `with_position`.** `iter().with_position()` and `iter_mut().with_position()` — through `next`,
+and through `Iterator::nth` (which `skip` and `step_by` call) — pair every cell they yield with the
+position of THAT cell: from iterator state `index`, `nth(n)` yields `((k / width, k % width), L[k])` for
+`k = index + n`, i.e. (position, item) pairs are the row-major enumeration of the window; when something
+is yielded the iterator is at `k + 1`. -/
+theorem C07_with_position (h w : Nat) (ops : List Op) (data : List α) (hlen : h * w ≤ data.length)
+    (hbig : h * w < usizeMax) (index n : Nat) :
+    let sh := Shape.chain ops (Shape.from h w)
+    let I := (specChain ops (indexMatrix h w)).flatten
+    let W := (specChain ops (reshape h w data)).flatten
+    (posIterNth sh data n index).2 =
+      ((I.zip W)[index + n]?).map (fun x => (((index + n) / sh.width, (index + n) % sh.width), x)) ∧
+    ((posIterNth sh data n index).2.isSome → (posIterNth sh data n index).1 = index + n + 1) ∧
+    (posIterMutNth sh data.length n index).2 =
+      (I[index + n]?).map (fun x => (((index + n) / sh.width, (index + n) % sh.width), x)) ∧
+    ((posIterMutNth sh data.length n index).2.isSome → (posIterMutNth sh data.length n index).1 = index + n + 1) := by
+  intro sh I W
+  have R := rel_chain ops (rel_root h w data hlen)
+  have RI := rel_chain ops (rel_root h w (List.range (h * w)) (by simp))
+  have hb := window_lt h w ops hbig
+  have hI : I = offs sh := RI.index_flat
+  rw [hI]
+  have a := posIterNth_spec R hb n index
+  have b := posIterMutNth_spec R hb n index
+  exact ⟨a.1, a.2, b.1, b.2⟩
+
 /-- **C07, mutators.** `fill`, `clear`, `fill_with`, `insert` never panic (`insert`: unless its index
 computation overflows `usize`), write exactly the cells of the window (`touched` is the row-major list
 `I` of the window's offsets, each once — or, for `insert`, the part of it the items reach), give every
@@ -269,6 +295,9 @@ example : (SurfModel.Shape.insert (Shape.chain exOps (Shape.from 3 4)) exData (2
 /-- `nth(usize::MAX)` saturates: nothing is yielded afterwards, no cell twice -/
 example : iterMutNthSeq (Shape.chain exOps (Shape.from 3 4)) 12 [0, usizeMax, 0, usizeMax - 3] 0
     = [some 1, none, none, none] := by decide
+/-- positions reported by `with_position().step_by(2)` (= `next`, then `nth(1)`, …) on the strided window -/
+example : posIterMutNthSeq (Shape.chain exOps (Shape.from 3 4)) 12 [0, 1, 1, 1] 0
+    = [some ((0, 0), 1), some ((0, 2), 3), some ((1, 1), 6), none] := by decide
 /-- `set` outside of the window (but inside the parent) panics, inside it writes one cell -/
 example : SurfModel.Shape.set (Shape.chain exOps (Shape.from 3 4)) exData 0 3 0 = none := by decide
 example : (SurfModel.Shape.set (Shape.chain exOps (Shape.from 3 4)) exData 1 2 0).map (fun p => (p.1.data, p.2))
